@@ -38,6 +38,7 @@ def evalLine (line : String) : Option Verdict :=
     | "C07" :: rest => some (evalBurst rest outs)
     | "C03" :: rest => some (evalBurst rest outs)
     | "C04" :: rest => some (evalParFail "C04" rest outs)
+    | "C06" :: rest => some (evalParFail "C06" rest outs)
     | "C08" :: rest => some (evalParFail "C08" rest outs)
     | "C14" :: rest => some (evalParFail "C14" rest outs)
     | "C12" :: rest => some (evalConc "C12" rest outs)
